@@ -104,9 +104,18 @@ impl Sub for Duplicates {
   }
 }
 
+/// custom keys that are distinct as strings but close to each other or to registered keys
+const NEAR_KEYS: [&str; 14] = ["customer_id", "customer_name", "customer_id ", "A", "Exp", "SUB", "iss ", "é", "e\u{301}", "a\u{0}", "aa", "ab", "nbf2", "jti_"];
+
+fn long_key(tail: u8) -> String {
+  format!("{}{}", "k".repeat(300), tail)
+}
+
 fn random_op() -> BoxedStrategy<BOp> {
   prop_oneof![
     12 => (0usize..9, 0usize..1000).prop_map(|(k, n)| set_op(k, n)),
+    4 => (any::<u16>(), 0usize..1000).prop_map(|(i, n)| BOp::Set(ClaimSpec::Custom(NEAR_KEYS[pick(i, NEAR_KEYS.len())].to_string(), json!(n)))),
+    1 => (0u8..3, 0usize..1000).prop_map(|(t, n)| BOp::Set(ClaimSpec::CustomOwned(long_key(t), json!(n)))),
     2 => Just(BOp::Ack),
     1 => gen::jsonish(6).prop_map(BOp::Footer),
     1 => gen::jsonish(6).prop_map(BOp::Assertion),
@@ -115,8 +124,20 @@ fn random_op() -> BoxedStrategy<BOp> {
   .boxed()
 }
 
+/// long histories over a pool of 200 numbered custom keys: dozens of distinct keys before a repeat
+fn many_keys_op() -> BoxedStrategy<BOp> {
+  prop_oneof![
+    30 => (0usize..200, 0usize..1000).prop_map(|(k, n)| BOp::Set(ClaimSpec::Custom(format!("k{k}"), json!(n)))),
+    3 => (0usize..9, 0usize..1000).prop_map(|(k, n)| set_op(k, n)),
+    1 => Just(BOp::Ack),
+    1 => gen::jsonish(6).prop_map(BOp::Footer),
+    3 => Just(BOp::Build),
+  ]
+  .boxed()
+}
+
 fn all_subs() -> Vec<Duplicates> {
-  let mut v = vec![Duplicates { proto: Proto::V4L, kind: "exhaustive" }];
+  let mut v = vec![Duplicates { proto: Proto::V4L, kind: "exhaustive" }, Duplicates { proto: Proto::V4L, kind: "many-keys" }, Duplicates { proto: Proto::V2P, kind: "many-keys" }];
   for proto in Proto::ALL {
     v.push(Duplicates { proto, kind: "random" });
   }
@@ -144,6 +165,9 @@ pub fn run(ctx: &Ctx) -> EvidenceMeta {
           ctx.enumerate(s, cases, true)
         }));
       }
+    } else if s.kind == "many-keys" {
+      let n = ctx.n(1500, 15_000) / s.proto.cost();
+      jobs.push(Box::new(move || ctx.prop(s, (gen::bytes32(), vec(many_keys_op(), 20..=160)).prop_map(move |(seed, ops)| HistCase { proto: s.proto, seed, ops, twin: vec![] }), n)));
     } else {
       let n = (ctx.n(10_000, 100_000) / s.proto.cost().min(20)).max(300);
       jobs.push(Box::new(move || ctx.prop(s, (gen::bytes32(), vec(random_op(), 0..=40), prop_oneof![2 => Just(vec![]), 1 => vec(any::<bool>(), 0..=40)]).prop_map(move |(seed, ops, twin)| HistCase { proto: s.proto, seed, ops, twin }), n)));
